@@ -1,7 +1,8 @@
 #!/usr/bin/env python3
 """C20 — balance in shared memory and .PASSWDS: proofs in coq/Props/C20.v; histories of SetUMoney / DeUMoney /
 MoneyOf, interleaved with every other writer of the user's record (passwdSyncUpdate and its callers, one-field
-updates), on a real segment and a real .PASSWDS; model correspondence and direct predicates against plain arithmetic."""
+updates), on a real segment and a real .PASSWDS; writes that are refused (file away, /dev/full) and disagreement that is already there; the same
+on the production build's table (-tags docker, 2 000 000 slots, sparse 1 GB .PASSWDS); model correspondence and direct predicates against plain arithmetic."""
 import os, struct, sys
 sys.path.insert(0, os.path.join(os.path.dirname(os.path.abspath(__file__)), "..", "lib"))
 import vf
@@ -10,10 +11,55 @@ I32MAX, I32MIN = 2**31 - 1, -2**31
 SET, DE, GET, QUERY = 1, 2, 3, 4
 # the other writers of the same user's record (ptt layer / cmbbs), interleaved with the money operations
 REWRITE, SETPERM, START, END, KILL, PASSWD, EMAIL, INCPOST = 5, 6, 7, 8, 9, 10, 11, 12
+# writes that are refused / disagreement that is already there
+REFUSE, PLANTSHM, PLANTFILE = 13, 14, 15     # (REFUSE, slot, mode, inner operation); (PLANTSHM, slot, m); (PLANTFILE, slot, m)
+REFUSE_MODES = {1: "is away (renamed): the open fails", 2: "leads to /dev/full: the write fails"}
 MONEY_OPS = (SET, DE, GET, QUERY)
 REC_WRITERS = (REWRITE, SETPERM, END, KILL, INCPOST)          # end in ptt.passwdSyncUpdate: a whole-record write-back
 NAMES = {SET: "SetUMoney", DE: "DeUMoney", GET: "MoneyOf", QUERY: "ptt.GetUser", REWRITE: "ptt.passwdSyncUpdate", SETPERM: "ptt.SetUserPerm", START: "ptt.pwcuStart",
          END: "ptt.pwcuEnd", KILL: "ptt.killUser", PASSWD: "cmbbs.PasswdUpdatePasswd", EMAIL: "cmbbs.PasswdUpdateEmail", INCPOST: "ptt.pwcuIncNumPost"}
+
+
+class SparseBytes:
+    """the bytes of a (sparse) file: size and the non-zero bytes"""
+
+    def __init__(self, size, d=None):
+        self.size, self.d = size, dict(d or {})
+
+    def __len__(self):
+        return self.size
+
+    def copy(self):
+        return SparseBytes(self.size, self.d)
+
+    def __getitem__(self, k):
+        if isinstance(k, slice):
+            a, b, _ = k.indices(self.size)
+            return bytes(self.d.get(i, 0) for i in range(a, b))
+        return self.d.get(k, 0)
+
+    def __setitem__(self, k, bs):
+        for i, x in enumerate(bytes(bs)):
+            if x:
+                self.d[k.start + i] = x
+            else:
+                self.d.pop(k.start + i, None)
+
+
+class LazyBal(dict):
+    def __init__(self, world):
+        super().__init__()
+        self.world = world
+
+    def get(self, u, default=None):
+        return self[u] if self.world.valid(u) else default
+
+    def __missing__(self, u):
+        if not self.world.valid(u):
+            raise KeyError(u)
+        v = self.world.field(self.world.init, u)
+        self[u] = v
+        return v
 
 
 class Layout:
@@ -56,12 +102,18 @@ def describe(op, L):
         return "ptt.killUser(%d)" % u
     if k == INCPOST:
         return "ptt.pwcuIncNumPost(uid %d)" % u
+    if k == REFUSE:
+        return "%s while .PASSWDS %s" % (describe(op[3], L), REFUSE_MODES[op[2]])
+    if k == PLANTSHM:
+        return "[the segment's balance of slot %d becomes %d with no file write: a process died between SetUMoney's two stores]" % (u, op[2])
+    if k == PLANTFILE:
+        return "[the Money field of record %d in .PASSWDS becomes %d behind the segment's back]" % (u, op[2])
     return "%s(%d, ...)" % (NAMES[k], u)
 
 
 def short(op):
     """an operation for messages / evidence: record bytes abbreviated to the Money they carry"""
-    return [x if not isinstance(x, (bytes, bytearray)) else "<%d bytes>" % len(x) for x in op]
+    return [short(x) if isinstance(x, tuple) else x if not isinstance(x, (bytes, bytearray)) else "<%d bytes>" % len(x) for x in op]
 
 
 class World:
@@ -71,10 +123,15 @@ class World:
     def __init__(self, init, L):
         self.init, self.L = init, L
         self.maxu, self.recsz, self.off = L.maxu, L.recsz, L.off
-        self.cur = bytearray(init)
         self.touched = set()
         self.pending = {}
-        self.bal = {u: self.field(init, u) for u in range(1, self.maxu + 1)}
+        self.dirty = set()        # slots whose record may have been left behind by a refused write / a planted value
+        if isinstance(init, SparseBytes):
+            self.cur = init.copy()
+            self.bal = LazyBal(self)
+        else:
+            self.cur = bytearray(init)
+            self.bal = {u: self.field(init, u) for u in range(1, self.maxu + 1)}
 
     def pos(self, u):
         return self.recsz * (u - 1) + self.off
@@ -102,9 +159,19 @@ class World:
             return (self.recsz * (u - 1) + self.L.pw, self.L.pwlen)
         if k == EMAIL:
             return (self.recsz * (u - 1) + self.L.em, self.L.emlen)
-        if k in (SET, DE):
+        if k in (SET, DE, PLANTFILE):
             return (self.pos(u), 4)
         return (0, 0)
+
+    def arith(self, k, u, m):
+        """the balance a set / credit / debit leaves"""
+        if k == SET:
+            return m
+        if m < 0 and self.bal[u] < -m:
+            return 0                                 # a debit larger than the balance leaves 0
+        v = self.bal[u] + m
+        assert I32MIN <= v <= I32MAX
+        return v
 
     def step(self, op):
         """expected (status, value, code); value None = not fixed by the property; None = outcome not fixed at all"""
@@ -118,18 +185,29 @@ class World:
             return (0, self.bal[u], 0)                   # the record ptt hands to its callers shows the balance
         if not self.valid(u):
             return (3, None, None)                       # must fail, with an error, writing nothing
+        if k == REFUSE:
+            # the write cannot happen: the call must report an error and the file is as it was. The code stores into the
+            # segment before it attempts the write; judge() accepts the old balance as well and tells this World.
+            inner = op[3]
+            if inner[0] in (SET, DE):
+                self.bal[u] = self.arith(inner[0], u, inner[2])
+                self.dirty.add(u)
+            return (3, None, None)
+        if k == PLANTSHM:
+            self.bal[u] = op[2]
+            self.dirty.add(u)
+            return (0, op[2], 0)
+        if k == PLANTFILE:
+            self.put(self.pos(u), struct.pack("<i", op[2]))
+            self.dirty.add(u)
+            return (0, op[2], 0)
         if k in (SET, DE):
-            m = op[2]
-            if k == SET:
-                self.bal[u] = m
-            elif m < 0 and self.bal[u] < -m:
-                self.bal[u] = 0                          # a debit larger than the balance leaves 0
-            else:
-                self.bal[u] = self.bal[u] + m
-                assert I32MIN <= self.bal[u] <= I32MAX
+            self.bal[u] = self.arith(k, u, op[2])
             self.put(self.pos(u), struct.pack("<i", self.bal[u]))
+            self.dirty.discard(u)                        # a successful operation always writes the file
             return (0, self.bal[u], 0)
         if k in REC_WRITERS:
+            self.dirty.discard(u)
             # a whole-record write-back never changes a balance: the record lands in the file with the balance in it
             if k == REWRITE:
                 rec = L.canon(op[2])
@@ -157,6 +235,11 @@ class World:
             return self.bal[u] if self.valid(u) else self.L.money_of_rec(rec)
         if k == END:
             return self.bal[u]
+        if k == REFUSE:
+            inner = op[3]
+            if inner[0] in (SET, DE):
+                return self.bal[u] if self.valid(u) else -1
+            return self.model_value(inner)
         return 0
 
     def expected_diffs(self):
@@ -177,15 +260,17 @@ def expected_line(init, L, ops):
         if e is None:
             o3 = [1, 0, 0]
         elif e[0] == 3:
-            o3 = [3, -1 if op[0] in (SET, DE) else w.model_value(op), 1]
+            o3 = [3, -1 if op[0] in (SET, DE) else w.model_value(op), 1 if not w.valid(u) else 99]
         else:
             o3 = [0, e[1] if e[1] is not None else w.model_value(op), 0]
-        t += o3 + [w.bal[u] if w.valid(u) else 0] + obs()
+        t += o3 + [w.field(w.cur, u) if w.valid(u) else 0] + obs()
     return " ".join(str(x) for x in t)
 
 
-def parse_result(line, maxu, nsteps):
-    """-> (status, [ (out3|None, field|None, shm list, flen, {off: byte}) ] ) with the initial observation first"""
+def parse_result(line, maxu, nsteps, sparse_init=None):
+    """-> (status, [ (out3|None, field|None, {slot: balance}, flen, {off: byte differing from the initial file}) ] ), the
+    initial observation first. Dense form (default build): all MAX_USERS balances, the differing bytes. Sparse form
+    (sparse_init given): every non-zero balance of the segment, every non-zero byte of the file."""
     t = [int(x) for x in line.split()]
     if t[0] != 0:
         return t[0], []
@@ -195,15 +280,25 @@ def parse_result(line, maxu, nsteps):
         if s > 0:
             out3, fld = tuple(t[i:i + 3]), t[i + 3]
             i += 4
-        shm = t[i:i + maxu]; i += maxu
-        flen, n = t[i], t[i + 1]; i += 2
-        d = {t[i + 2 * k]: t[i + 2 * k + 1] for k in range(n)}; i += 2 * n
+        if sparse_init is None:
+            shm = {u + 1: v for u, v in enumerate(t[i:i + maxu])}; i += maxu
+            flen, n = t[i], t[i + 1]; i += 2
+            d = {t[i + 2 * k]: t[i + 2 * k + 1] for k in range(n)}; i += 2 * n
+        else:
+            k = t[i]; i += 1
+            shm = {t[i + 2 * j]: t[i + 2 * j + 1] for j in range(k)}; i += 2 * k
+            flen, n = t[i], t[i + 1]; i += 2
+            nz = {t[i + 2 * j]: t[i + 2 * j + 1] for j in range(n)}; i += 2 * n
+            d = {o: nz.get(o, 0) for o in set(nz) | set(sparse_init.d) if nz.get(o, 0) != sparse_init[o]}
         obs.append((out3, fld, shm, flen, d))
     assert i == len(t), (i, len(t))
     return 0, obs
 
 
 def op_group(o):
+    if o[0] == REFUSE:
+        i = o[3]
+        return "13 %d %s" % (o[2], op_group(i if i[0] not in (GET, QUERY) else i[:2]))
     return " ".join(" ".join(str(b) for b in x) if isinstance(x, (bytes, bytearray)) else str(x) for x in o)
 
 
@@ -214,23 +309,45 @@ def case_line(ftoks, ops):
 def judge(init, L, ops, line):
     """First step at which the implementation's own outputs contradict the property. -> None | (step index, key, text, expected, got)"""
     maxu, recsz, off = L.maxu, L.recsz, L.off
+    sparse = isinstance(init, SparseBytes)
     w = World(init, L)
-    st, obs = parse_result(line, maxu, len(ops))
+    st, obs = parse_result(line, maxu, len(ops), init if sparse else None)
     if st != 0:
         return (0, "driver", "case status %d" % st, "0", str(st))
+
+    def universe(shm):
+        return range(1, maxu + 1) if not sparse else sorted(set(shm) | set(w.bal))
+
+    def shm_bad(shm):
+        return [x for x in universe(shm) if shm.get(x, 0) != w.bal[x]]
     o0 = obs[0]
-    if o0[2] != [w.bal[u] for u in range(1, maxu + 1)] or o0[3] != len(init) or o0[4]:
-        return (0, "load", "after a cold load the segment's balances differ from the Money fields of .PASSWDS", str([w.bal[u] for u in range(1, maxu + 1)]), str(o0[2]))
+    if shm_bad(o0[2]) or o0[3] != len(init) or o0[4]:
+        bad = shm_bad(o0[2])
+        return (0, "load", "after a cold load the segment's balances differ from the Money fields of .PASSWDS (slots %s)" % bad[:6], str([w.bal[u] for u in bad[:6]]), str([o0[2].get(u, 0) for u in bad[:6]]))
     for i, op in enumerate(ops):
         kind, u = op[0], op[1]
         m = op[2] if kind in (SET, DE) else 0
         before = dict(w.bal)
-        exp = w.step(op)
+        dirty_before = u in w.dirty
+        file_before = w.field(w.cur, u) if w.valid(u) else None
         out3, fld, shm, flen, d = obs[i + 1]
         what = describe(op, L)
-        money_op = kind in MONEY_OPS
+        if kind == REFUSE and w.valid(u) and out3[0] == 0:
+            # the call claims success although nothing could be written: that is only right when nothing needed writing, i.e.
+            # when everything the operation itself would have left is already there (decided below, byte by byte)
+            exp = w.step(op[3])
+        else:
+            exp = w.step(op)
+        if kind == REFUSE and out3[0] == 3 and w.valid(u) and op[3][0] in (SET, DE) and shm.get(u, 0) == before.get(u, 0) != w.bal[u]:
+            w.bal[u] = before.get(u, 0)      # an implementation that does not touch the segment when the write is refused is as good
+            if file_before == w.bal[u]:
+                w.dirty.discard(u)
         if not w.valid(u):
             cls = {SET: "set-invalid-slot", DE: "de-invalid-slot", GET: "get-invalid-slot", QUERY: "get-invalid-slot"}.get(kind, "writer-invalid-slot")
+        elif kind == REFUSE:
+            cls = "refused-write"
+        elif dirty_before and kind in (SET, DE) + REC_WRITERS:
+            cls = "resync-after-disagreement"
         elif kind in REC_WRITERS:
             cls = "record-rewrite"
         elif kind in (PASSWD, EMAIL):
@@ -241,24 +358,31 @@ def judge(init, L, ops, line):
             cls = "debit-min-int32"
         elif u == maxu:
             cls = "last-slot"
+        elif u > 65536:
+            cls = "slot-above-65536"
         else:
             cls = "agree"
+        if sparse and cls in ("agree", "last-slot", "record-rewrite", "record-query") and u > 65536:
+            cls = "slot-above-65536"
+        views = ""
+        if w.valid(u) and dirty_before:
+            views = " (before the call shared memory held %d and the Money field of the record %d)" % (before.get(u, 0), file_before)
         prob = None
         if exp is not None:
             if exp[0] == 3:
                 if out3[0] != 3:
-                    prob = ("%s on an invalid slot must return an error; status %d (1 = panic, 0 = accepted)" % (what, out3[0]), "status 3", "status %d" % out3[0])
+                    prob = ("%s must return an error%s; status %d (1 = panic, 0 = accepted)" % (what, " (invalid slot)" if not w.valid(u) else "", out3[0]), "status 3", "status %d" % out3[0])
             elif out3[0] != 0:
                 prob = ("%s on a valid slot (balance %d) fails: status %d code %d; shared memory now holds %d, the Money field of the record %d" % (
-                    what, before.get(u, 0), out3[0], out3[2], shm[u - 1], fld), "0 %s" % exp[1], "%d %d %d" % out3)
+                    what, before.get(u, 0), out3[0], out3[2], shm.get(u, 0), fld), "0 %s" % exp[1], "%d %d %d" % out3)
             elif exp[1] is not None and out3[1] != exp[1]:
-                prob = ("%s with balance %d returns %d, arithmetic says %d" % (what, before.get(u, 0), out3[1], exp[1]), str(exp[1]), str(out3[1]))
-        want_shm = [w.bal[x] for x in range(1, maxu + 1)]
+                prob = ("%s with balance %d returns %d, arithmetic says %d%s" % (what, before.get(u, 0), out3[1], exp[1], views), str(exp[1]), str(out3[1]))
         want_d = w.expected_diffs()
-        if prob is None and shm != want_shm:
-            bad = [x + 1 for x in range(maxu) if shm[x] != want_shm[x]]
-            prob = ("after %s (balance before: %d) shared memory holds %s for slot(s) %s, arithmetic says %s" % (
-                what, before.get(u, 0), [shm[x - 1] for x in bad][:4], bad[:4], [want_shm[x - 1] for x in bad][:4]), str(want_shm), str(shm))
+        if prob is None and shm_bad(shm):
+            bad = shm_bad(shm)
+            prob = ("after %s (balance before: %d) shared memory holds %s for slot(s) %s, arithmetic says %s%s" % (
+                what, before.get(u, 0), [shm.get(x, 0) for x in bad][:4], bad[:4], [w.bal[x] for x in bad][:4], views),
+                str({x: w.bal[x] for x in bad[:16]}), str({x: shm.get(x, 0) for x in bad[:16]}))
         if prob is None and (d != want_d or flen != len(init)):
             offs = sorted(set(d.items()) ^ set(want_d.items()))
             slots = sorted({o // recsz + 1 for o, _ in offs})
@@ -274,15 +398,18 @@ def judge(init, L, ops, line):
             ms = sorted({o // recsz + 1 for o in money_offs})
             got_field = struct.unpack("<i", bytes(d.get(k, init[k]) if d.get(k, init[k]) >= 0 else 0 for k in range(w.pos(ms[0]), w.pos(ms[0]) + 4)))[0] if ms else None
             if ms and cls2 != "frame":
-                prob = ("after %s the three views of slot %d's balance disagree: shared memory %s, Money field of the record in .PASSWDS %s, arithmetic %s (balance before the call: %d)" % (
-                    what, ms[0], shm[ms[0] - 1], got_field, w.bal[ms[0]], before.get(ms[0], 0)), str(sorted(want_d.items())[:64]), str(sorted(d.items())[:64]))
+                prob = ("after %s the three views of slot %d's balance disagree: shared memory %s, Money field of the record in .PASSWDS %s, arithmetic %s (balance before the call: %d)%s" % (
+                    what, ms[0], shm.get(ms[0], 0), got_field, w.bal[ms[0]], before.get(ms[0], 0), views), str(sorted(want_d.items())[:64]), str(sorted(d.items())[:64]))
             else:
                 prob = ("after %s .PASSWDS differs from what arithmetic and the callers' records say at byte offsets %s (record(s) %s%s): shared memory %s, file field %s" % (
-                    what, [o for o, _ in offs][:8], slots[:4], "" if len(money_offs) == len(offs) else ", outside the Money field", shm[u - 1] if w.valid(u) else "-", got_field),
+                    what, [o for o, _ in offs][:8], slots[:4], "" if len(money_offs) == len(offs) else ", outside the Money field", shm.get(u, 0) if w.valid(u) else "-", got_field),
                     str(sorted(want_d.items())[:64]), str(sorted(d.items())[:64]))
             cls = cls2
-        if prob is None and w.valid(u) and fld != w.bal[u]:
-            prob = ("after %s PasswdQuery(%d).Money = %d, arithmetic says %d" % (what, u, fld, w.bal[u]), str(w.bal[u]), str(fld))
+        if prob is None and w.valid(u):
+            want_fld = w.field(w.cur, u)
+            assert u in w.dirty or want_fld == w.bal[u]
+            if fld != want_fld:
+                prob = ("after %s PasswdQuery(%d).Money = %d, arithmetic says %d" % (what, u, fld, want_fld), str(want_fld), str(fld))
         if prob is not None:
             return (i, cls, prob[0], prob[1], prob[2])
     return None
@@ -456,6 +583,19 @@ def main():
         cases.append(("fixture", [(DE, u, 640), (KILL, u), (GET, u, 0), (DE, u, -40), (START, u), (DE, u, 2), (END, u, 1)]))
     for u in (0, -1, maxu + 1, I32MAX, I32MIN):
         cases.append(("fixture+edge-balances", [(REWRITE, u, zero_rec), (SETPERM, u, 7, L.with_money(zero_rec, 9)), (PASSWD, u, bytes(L.pwlen)), (EMAIL, u, bytes(L.emlen)), (GET, 1, 0), (GET, maxu, 0)]))
+    # ---- writes that are refused / shared memory and .PASSWDS already disagreeing: a later successful operation must bring
+    # all three views into line (it always writes the file). Every slot x both ways of refusing the write; the operation
+    # repeated with the very value the segment already holds (the caller's retry), credit 0, a debit that clamps to 0.
+    for u in range(1, maxu + 1):
+        md = 1 + u % 2
+        cases.append(("fixture", [(SET, u, 100), (REFUSE, u, md, (SET, u, 250)), (SET, u, 250), (GET, u, 0), (DE, u, -50),
+                                  (REFUSE, u, 3 - md, (DE, u, 7)), (DE, u, 0), (REFUSE, u, md, (DE, u, -1000)), (DE, u, -1), (DE, u, 12),
+                                  (REFUSE, u, md, (SET, u, 0)), (SET, u, 0), (REFUSE, u, 3 - md, (REWRITE, u, zero_rec)), (GET, u, 0)]))
+        cases.append(("fixture+edge-balances", [(SET, u, 40 + u), (PLANTSHM, u, 9), (SET, u, 9), (PLANTFILE, u, 77), (DE, u, 0), (PLANTSHM, u, 0), (DE, u, -5),
+                                                (PLANTFILE, u, -3), (SET, u, 0), (PLANTSHM, u, 500 + u), (REWRITE, u, zero_rec), (PLANTFILE, u, 1), (INCPOST, u) if u in queryable else (GET, u, 0),
+                                                (PLANTSHM, u, I32MAX), (START, u), (END, u, 1), (GET, u, 0)]))
+    for u in (0, -1, maxu + 1):
+        cases.append(("fixture", [(REFUSE, u, 1, (SET, u, 5)), (REFUSE, u, 2, (DE, u, 5)), (REFUSE, u, 1, (REWRITE, u, zero_rec)), (REFUSE, u, 2, (PASSWD, u, bytes(L.pwlen))), (GET, 1, 0)]))
     n_sweep = len(cases)
     n_hist = 2500 if thorough else 110
     names = sorted(files)
@@ -468,6 +608,43 @@ def main():
         big = i % 6 == 5
         pool = [1, 2, maxu - 1, maxu] if i % 3 else sorted(rng.sample(range(1, maxu + 1), 3) + [maxu])
         cases.append((fname, gen_writer_history(fname, rng.randrange(2, 9 if big else 31), pool, big)))
+
+
+    def gen_disagree_history(fname, n, pool, init=None, Lx=None):
+        """money operations and record writers with refused writes and planted disagreement between them; on a slot whose record
+        was left behind, mostly the operations that ask for the value the segment already holds"""
+        w = World(files[fname] if init is None else init, Lx or L)
+        ops, snaps = [], {}
+        for _ in range(n):
+            u = rng.choice(pool) if rng.random() < 0.95 else rng.choice([0, -1, w.maxu + 1])
+            r = rng.random()
+            if not w.valid(u):
+                op = rng.choice([(REFUSE, u, 1, (SET, u, 3)), (REFUSE, u, 2, (DE, u, -3)), (SET, u, 3), (REFUSE, u, 2, (REWRITE, u, zero_rec))])
+            elif u in w.dirty and r < 0.5:
+                b = w.bal[u]
+                op = rng.choice([(SET, u, b), (DE, u, 0), (REWRITE, u, caller_record(w, u, snaps, False)), (GET, u, 0),
+                                 (DE, u, -1) if b <= 0 else (DE, u, 0), money_step(w, fname, u, allow_query=False)])
+            elif r < 0.72:
+                inner = money_step(w, fname, u, allow_query=False)
+                if inner[0] == GET:
+                    inner = rng.choice([(REWRITE, u, caller_record(w, u, snaps, False)), (PASSWD, u, bytes(rng.randrange(256) for _ in range(L.pwlen))),
+                                        (EMAIL, u, bytes(rng.randrange(256) for _ in range(L.emlen)))])
+                op = (REFUSE, u, rng.choice([1, 2]), inner)
+            elif r < 0.86:
+                b = w.bal[u]
+                op = (rng.choice([PLANTSHM, PLANTFILE]), u, rng.choice([0, 1, -1, b, min(b + 1, I32MAX), max(b - 1, I32MIN), I32MAX, I32MIN, rng.randrange(-1000, 1000)]))
+            else:
+                op = money_step(w, fname, u, allow_query=False)
+            if w.valid(u):
+                snaps.setdefault(u, []).append(w.record(u))
+            w.step(op)
+            ops.append(op)
+        return ops
+    n_dhist = 1500 if thorough else 70
+    for i in range(n_dhist):
+        fname = names[i % len(names)]
+        pool = [1, 2, maxu - 1, maxu] if i % 3 else sorted(rng.sample(range(1, maxu + 1), 3) + [maxu])
+        cases.append((fname, gen_disagree_history(fname, rng.randrange(3, 25), pool)))
 
     lines = [case_line(ftoks[f], ops) for f, ops in cases]
     io = vf.run_impl(impl, "C20", lines, deadline_ms=60000)
@@ -486,6 +663,167 @@ def main():
         vf.correspond(c, "short .PASSWDS", ["1|<%s[:%d]>|%s" % (f, n, [short(o) for o in ops]) for f, n, ops in shortf], so, vf.run_model(model, sl))
     c.count(sum(len(s[2]) for s in shortf), "steps on an incomplete file (correspondence only)")
 
+    # ---------------------------------------------------------------- any table size: the production build (-tags docker)
+    # .PASSWDS is a sparse file of MAX_USERS records (1 GB, a few blocks allocated); the driver reports every non-zero balance of
+    # the whole segment and every non-zero byte of the file after every step, so all three views and the frame are decided
+    # exactly as above. Slots on both sides of 65 536 (= 1 << HASH_BITS, the size of the other table of the segment) and the last one.
+    impl_docker = vf.build_impl(tags="verif docker", name="implrun_docker")
+    cd_ = vf.run_impl(impl_docker, "C20", ["2"])[0].split()
+    ld_ = vf.run_impl(impl_docker, "C20", ["3"])[0].split()
+    if model:
+        vf.correspond(c, "constants of the docker build: MAX_USERS / USEREC_RAW_SZ / Offsetof(Money)", ["2 1"], [" ".join(cd_)], vf.run_model(model, ["2 1"]))
+        vf.correspond(c, "layout of the docker build (the model uses one layout for both builds)", ["3"], [" ".join(ld_)], vf.run_model(model, ["3"]))
+    Ld = Layout(tuple(int(x) for x in cd_[1:4]), [int(x) for x in ld_[1:]])
+    maxd = Ld.maxu
+    c.count(2, "constants")
+    same_layout = (Ld.recsz, Ld.off, Ld.lvl, Ld.posts, Ld.pw, Ld.pwlen, Ld.em, Ld.emlen, Ld.bools) == (L.recsz, L.off, L.lvl, L.posts, L.pw, L.pwlen, L.em, L.emlen, L.bools)
+    if not same_layout:
+        c.broken.append({"kind": "correspondence", "where": "record layout of the docker build differs from the default build", "theorem": "correspondence layout", "mismatches": 1, "examples": [], "log": ""})
+
+    def big_init(Lx, nrec, plants):
+        sp = SparseBytes(nrec * Lx.recsz)
+        for u, m in plants:
+            base = Lx.recsz * (u - 1)
+            uid = b"u%d" % u
+            sp[base + 4:base + 4 + len(uid)] = uid                    # UserecRaw.UserID follows the 4-byte Version
+            sp[base + Lx.off:base + Lx.off + 4] = struct.pack("<i", m)
+        return sp
+
+    def big_watch(Lx, plants, ops):
+        return sorted({u for u, _ in plants} | {o[1] for o in ops if 1 <= o[1] <= Lx.maxu})
+
+    def big_lines(cfg, Lx, nrec, load, plants, ops):
+        watch = " ".join(str(x) for x in big_watch(Lx, plants, ops))
+        pl = " ".join("%d %d" % p for p in plants)
+        tail = "".join("|" + op_group(o if o[0] not in (GET, QUERY) else o[:2]) for o in ops)
+        return "4|%d %d|%s|%s%s" % (nrec, load, watch, pl, tail), "4 %d|%s|%s%s" % (cfg, watch, pl, tail)
+
+    def big_project(line, Lx, init, watch, nsteps):
+        """the implementation's observation in the form the size-generic model prints: per step status value code, the Money field of
+        the addressed record, and (segment balance, Money field) of every watched slot"""
+        st, obs = parse_result(line, Lx.maxu, nsteps, init)
+        if st != 0:
+            return line
+        t = [0]
+        for out3, fld, shm, flen, d in obs:
+            if out3 is not None:
+                t += list(out3) + [fld]
+            for x in watch:
+                at = Lx.recsz * (x - 1) + Lx.off
+                t += [shm.get(x, 0), struct.unpack("<i", bytes(d.get(k, init[k]) for k in range(at, at + 4)))[0]]
+        return " ".join(str(x) for x in t)
+
+    def big_expected(init, Lx, ops):
+        w = World(init, Lx)
+        out = []
+        for op in ops:
+            e = w.step(op)
+            u = op[1]
+            out.append("%s -> %s; shared memory %s, Money field of the record %s" % (
+                describe(op, Lx), "unspecified" if e is None else "an error" if e[0] == 3 else "returns %s" % (e[1] if e[1] is not None else "-"),
+                w.bal[u] if w.valid(u) else "-", w.field(w.cur, u) if w.valid(u) else "-"))
+        return out
+
+    def run_big(exe, cfg, Lx, big, label, build):
+        """big: [(nrec, load, plants, ops)]"""
+        pairs = [big_lines(cfg, Lx, *b) for b in big]
+        bo = vf.run_impl(exe, "C20", [a for a, _ in pairs], deadline_ms=900000)
+        inits = [big_init(Lx, b[0], b[2]) for b in big]
+        if model:
+            proj = [big_project(l, Lx, ini, big_watch(Lx, b[2], b[3]), len(b[3])) for l, ini, b in zip(bo, inits, big)]
+            vf.correspond(c, "%s: histories on the table of MAX_USERS = %d slots against the size-generic model (returns, segment balance and Money field of every addressed slot)" % (label, Lx.maxu),
+                          ["%s|plants %s|%s" % (a.split("|")[1], b[2], " | ".join(str(short(o)) for o in b[3])) for (a, _), b in zip(pairs, big)], proj, vf.run_model(model, [m_ for _, m_ in pairs]))
+        for (nrec, load, plants, ops), ini, line, (iline, _) in zip(big, inits, bo, pairs):
+            w = World(ini, Lx)
+            for op in ops:
+                c.nontrivial((build, op, w.bal.get(op[1])))
+                w.step(op)
+            c.count(len(ops), "steps on the %s build's table (%d slots)" % (build, Lx.maxu))
+            bad = judge(ini, Lx, ops, line)
+            if bad is None:
+                continue
+            step, key, text, exp, got = bad
+            key = key if build == "default" else "docker-" + key
+            if key in seen_keys:
+                continue
+            seen_keys.add(key)
+            cur = ops[:step + 1]
+
+            def still_fails(tr, ld):
+                try:
+                    b2 = judge(ini, Lx, tr, vf.run_impl(exe, "C20", [big_lines(cfg, Lx, nrec, ld, plants, tr)[0]], deadline_ms=900000)[0]) if ends_ok(tr) else None
+                except AssertionError:      # a shortened history whose sums leave int32 is not a history of the property
+                    b2 = None
+                return b2 if b2 is not None and (b2[1] if build == "default" else "docker-" + b2[1]) == key and b2[0] == len(tr) - 1 else None
+            # shrink: without the real cold load when the failure does not need it, then the failing slot's operations alone, then one by one
+            if load == 1 and build == "docker":
+                b2 = still_fails(cur, 0)
+                if b2 is not None:
+                    load, (step, _, text, exp, got) = 0, b2
+            if load == 0 or build == "default":
+                tr = [o for o in cur if o[1] == cur[-1][1]]
+                b2 = still_fails(tr, load) if len(tr) < len(cur) else None
+                if b2 is not None:
+                    cur, (step, _, text, exp, got) = tr, b2
+                j = 0
+                while j < len(cur) - 1 and len(cur) > 1:
+                    trial = cur[:j] + cur[j + 1:]
+                    b2 = still_fails(trial, load)
+                    if b2 is not None:
+                        cur, (step, _, text, exp, got) = trial, b2
+                    else:
+                        j += 1
+            c.violation(key, "[%s build, MAX_USERS = %d] %s  [.PASSWDS: %d zero records, balances planted %s, %s; history: %s]" % (
+                build, Lx.maxu, text, nrec, plants, "real cold load (LoadUHash)" if load else "balances put into the segment as the cold load does", [describe(o, Lx) for o in cur]),
+                {"cases": [big_lines(cfg, Lx, nrec, load, plants, cur)[0]], "driver": os.path.basename(exe) + " (go build -tags '%s')" % ("verif docker" if build == "docker" else "verif"),
+                 "history": [short(o) for o in cur], "history_readable": [describe(o, Lx) for o in cur], "expected": big_expected(ini, Lx, cur),
+                 "expected_observation": exp, "got_observation": got})
+
+    def ends_ok(ops):
+        open_ = set()
+        for o in ops:
+            if o[0] == START:
+                open_.add(o[1])
+            elif o[0] == END:
+                if o[1] not in open_:
+                    return False
+                open_.discard(o[1])
+        return True
+
+    def slot_history(u, b0):
+        """what the per-slot sweeps above do, on one slot of a big table (balance b0 planted)"""
+        stale = L.with_money(zero_rec, 7)
+        return [(GET, u, 0), (DE, u, 5), (DE, u, -30), (REWRITE, u, zero_rec), (GET, u, 0), (SET, u, 1000), (START, u), (DE, u, 500), (DE, u, -300), (END, u, 1),
+                (REWRITE, u, stale), (DE, u, -5000), (DE, u, 640), (PASSWD, u, bytes([65 + u % 26] * L.pwlen)), (DE, u, 1), (INCPOST, u),
+                (REFUSE, u, 1 + u % 2, (SET, u, 250)), (SET, u, 250), (REFUSE, u, 2 - u % 2, (DE, u, -1000)), (DE, u, -1), (DE, u, 12),
+                (PLANTSHM, u, 9), (SET, u, 9), (PLANTFILE, u, 77), (DE, u, 0), (SET, u, I32MAX), (DE, u, -I32MAX), (DE, u, I32MIN + 1), (GET, u, 0)]
+
+    seen_keys = set()
+    edge_slots = [1, 2, 65535, 65536, 65537, 65538, 70000, 1000000, maxd - 1, maxd]
+    big = []
+    if same_layout:
+        plants = [(u, 100 + 3 * k) for k, u in enumerate(edge_slots)]
+        # one real cold load of the whole 1 GB file (about 15 s); every boundary slot runs the per-slot history, then the invalid slots
+        ops = [o for u in edge_slots for o in slot_history(u, 0)]
+        ops += [(k, u, 7) for u in (0, -1, maxd + 1, I32MAX, I32MIN) for k in (SET, DE)] + [(REWRITE, maxd + 1, zero_rec), (REFUSE, maxd + 1, 1, (SET, maxd + 1, 3)), (GET, maxd, 0), (GET, 65537, 0)]
+        big.append((maxd, 1, plants, ops))
+        for u in [65536, 65537, maxd] + ([rng.randrange(65538, maxd) for _ in range(3)]):
+            for b0 in (100, 0, I32MAX):
+                big.append((maxd, 0, [(u, b0), (1, 5)], [(DE, u, 5 if b0 < I32MAX else -5), (GET, u, 0), (DE, u, -30), (REWRITE, u, zero_rec), (SET, u, 7), (SET, 1, 6), (GET, u, 0)]))
+        pool = [65536, 65537, maxd, 1]
+        for i in range(400 if thorough else 14):
+            pl = [(u, rng.choice([0, 5, 100, I32MAX, -7, rng.randrange(0, 10**6)])) for u in pool + [rng.randrange(65538, maxd)]]
+            ini = big_init(Ld, maxd, pl)
+            big.append((maxd, 1 if thorough and i % 80 == 0 else 0, pl, gen_disagree_history(None, rng.randrange(4, 30), [u for u, _ in pl], init=ini, Lx=Ld)))
+        run_big(impl_docker, 1, Ld, big, "docker build", "docker")
+    # the same case form on the default build's table (the size-generic model at N = 50)
+    small = []
+    for i in range(100 if thorough else 10):
+        pl = [(u, rng.choice([0, 5, 100, I32MAX, -7])) for u in (1, 2, maxu - 1, maxu)]
+        ini = big_init(L, maxu, pl)
+        small.append((maxu, i % 2, pl, gen_disagree_history(None, rng.randrange(4, 30), [u for u, _ in pl], init=ini, Lx=L)))
+    run_big(impl, 0, L, small, "default build", "default")
+
     def first_failure(fname, ops):
         # an END needs its START: a trial history that lost it is not a history
         open_ = set()
@@ -496,9 +834,11 @@ def main():
                 if o[1] not in open_:
                     return None
                 open_.discard(o[1])
-        return judge(files[fname], L, ops, vf.run_impl(impl, "C20", [case_line(ftoks[fname], ops)])[0])
+        try:
+            return judge(files[fname], L, ops, vf.run_impl(impl, "C20", [case_line(ftoks[fname], ops)])[0])
+        except AssertionError:      # a shortened history whose sums leave int32 is not a history of the property
+            return None
 
-    seen_keys = set()
     for ci_, ((fname, ops), line) in enumerate(zip(cases, io)):
         w = World(files[fname], L)
         nwriters = 0
@@ -535,7 +875,13 @@ def main():
     c.cov["exhaustive_parts"] = ["all %d valid slots x 2 initial files x one fixed 20-operation history that puts a money operation between pwcuStart and pwcuEnd and writes back records "
                                  "whose Money is stale / zero through passwdSyncUpdate, SetUserPerm, pwcuIncNumPost, PasswdUpdatePasswd, PasswdUpdateEmail" % maxu,
                                  "killUser after a credit on every fixture slot with a unique id", "all %d valid slots x one fixed 8-operation history" % maxu, "every slot in -2..2 and MAX_USERS-2..MAX_USERS+2 plus int32 extremes x {set, credit}",
-                                 "6 boundary amounts x 4 balances on the first and the last slot"]
+                                 "6 boundary amounts x 4 balances on the first and the last slot",
+                                 "all %d valid slots x {file away, path to /dev/full}: set refused then repeated with the same value, credit refused then credit 0, clamping debit refused then "
+                                 "repeated, set 0 refused then repeated, write-back refused; all %d valid slots x planted segment / planted file balance followed by set-to-the-same-value, credit 0, "
+                                 "clamping debit, passwdSyncUpdate, pwcuIncNumPost, pwcuStart..pwcuEnd" % (maxu, maxu),
+                                 "docker build (MAX_USERS = %d, real cold load of the 1 GB sparse .PASSWDS): slots %s x one fixed 29-operation history (money operations, write-backs, "
+                                 "pwcuStart..pwcuEnd, refused writes, planted disagreement), invalid slots 0, -1, MAX_USERS+1, int32 extremes" % (maxd, edge_slots)]
+    c.cov["builds"] = {"default": {"MAX_USERS": maxu}, "docker": {"MAX_USERS": maxd, "USEREC_RAW_SZ": Ld.recsz, "Offsetof(Money)": Ld.off, "histories": len(big)}}
     c.cov["histories"] = len(cases)
     c.cov["constants_compiled"] = {"MAX_USERS": maxu, "USEREC_RAW_SZ": recsz, "Offsetof(Money)": off}
     vf.ipc_cleanup()
@@ -545,8 +891,18 @@ def main():
                   "distinct by (operation, slot, amount or record, balance before). Writer histories interleave the money operations with every other writer of the same user's record "
                   "(ptt.passwdSyncUpdate with a caller record whose Money is stale / zero / arbitrary, ptt.SetUserPerm, pwcuStart .. money operations .. pwcuEnd, pwcuIncNumPost, killUser, "
                   "cmbbs.PasswdUpdatePasswd / PasswdUpdateEmail; valid and invalid slots) and the same three-way agreement plus 'bytes outside the operation's footprint are unchanged' is "
-                  "decided after every step" % (maxu * recsz),
+                  "decided after every step. Disagreement histories: any of these operations may run while .PASSWDS refuses the write (renamed away for the call: the open fails; the path "
+                  "leads to /dev/full for the call: the write fails), and the segment's balance or the record's Money field may be changed alone (a process that died between SetUMoney's two "
+                  "stores, a restored file); a refused call must report an error (or, if it reports success, everything it would have written must already be there), never touches the file, and "
+                  "EVERY later successful set / credit / debit / write-back on the slot must leave segment = Money field = arithmetic computed from the segment's balance = value returned. "
+                  "Production build: a second driver built with -tags 'verif docker' (MAX_USERS = 2 000 000) runs the same kinds of histories on a sparse 1 GB .PASSWDS (one real LoadUHash cold "
+                  "load per quick run, the other cases put the planted balances into the segment directly) over slots {1, 2, 65535, 65536, 65537, 65538, 70000, 1000000, MAX-1, MAX} and random "
+                  "slots above 65 536; after every step EVERY non-zero balance of the 2 000 000-entry segment and EVERY non-zero byte of the file (data extents) are compared with arithmetic, and the "
+                  "returns / balances / Money fields with the size-generic model" % (maxu * recsz),
              assumptions=["one process at a time updates a balance (concurrent updates are outside the property)", ".PASSWDS exists with MAX_USERS records (short files are exercised for the correspondence only)",
+                          "a refused write is produced by renaming .PASSWDS away or by pointing its path to /dev/full for the duration of one call; a failure in the middle of the 4-byte write (torn write) is not produced",
+                          "docker build: records of the sparse .PASSWDS other than the planted ones are zero (free slots, balance 0); LoadUHash skips the Money of free slots beyond the first 1000 free ones, "
+                          "so a FREE slot with a left-over balance far into the file starts in disagreement after a cold load - that start state is represented by the planted-file-balance operation, not by a real load",
                           "os.File Seek/Write and encoding/binary little-endian int32 are re-specified in the model (write_at, enc32) and exercised byte-exactly, not verified"])
 
 
